@@ -95,8 +95,9 @@ class GeventConnection(Connection):
         log.debug("Closed socket to %s" % (self.endpoint,))
 
         if not self.is_defunct:
-            self.error_all_requests(
-                ConnectionShutdown("Connection to %s was closed" % self.endpoint))
+            exc = ConnectionShutdown("Connection to %s was closed" % self.endpoint)
+            self.error_all_cp_sessions(exc)
+            self.error_all_requests(exc)
             # don't leave in-progress operations hanging
             self.connected_event.set()
 
